@@ -226,6 +226,23 @@ fn regret_match_positive<const N: usize>() {
 }
 for_lengths!(regret_match_positive, c08_regret_match_positive_n1, c08_regret_match_positive_n2, c08_regret_match_positive_n3, kani::solver(cvc5));
 
+/// C05.K.regret_match.any_finite_regrets (KNOWN FINDING D10): the same claim WITHOUT the magnitude
+/// bound -- any finite cumulative regrets.  Fails: two regrets near f64::MAX sum to +inf and every
+/// probability becomes r / inf = 0 (the first step of the overflow chain that makes `solve` panic for
+/// payoffs around 1e308).  Listed in known_findings.json; the bounded harnesses above are its residual.
+#[kani::proof]
+#[kani::unwind(5)]
+#[kani::solver(cvc5)]
+fn c05_regret_match_any_finite_n2() {
+    let orig = any_finite_arr::<2>();
+    kani::assume(orig[0] > 0.0 || orig[1] > 0.0);
+    let mut r = orig;
+    let mut s = [0.5f64; 2];
+    let p = any_params();
+    p.regret_match(&mut r, &mut s);
+    assert!(is_distribution(&s), "C05.K.regret_match.any_finite_regrets: a distribution for ANY finite regrets");
+}
+
 /// C08.K.regret_match.fallbacks: without positive regret -> weight +inf: a best action; 0: uniform;
 /// -inf: a worst action.  C05: always a distribution, never a panic (finite regrets).
 fn regret_match_fallbacks<const N: usize>() {
